@@ -169,6 +169,7 @@ structure Frame where
 /-- glue around the pipe calls (buffered_pipe.py / channel.py), executed without yielding -/
 inductive HCond where
   | ne (i : Bool) | cl (i : Bool) | ev (i : Bool) | eof | chClosed | hasPipe
+  | combine | tmp
   | tt
   | not (c : HCond) | or (a b : HCond) | and (a b : HCond)
   deriving DecidableEq, Repr
@@ -177,6 +178,9 @@ inductive PInstr where
   | acq (l : HLock) | rel (l : HLock)
   | setNe (i : Bool) (b : Bool) | setCl (i : Bool) | setEv (i : Bool)
   | setEof | setChClosed | mkPipe
+  | setCombine (b : Bool)              -- self.combine_stderr = b
+  | saveNe (i : Bool)                  -- tmp := "buffer i holds data" (the `data` local of set_combine_stderr)
+  | dropTmp                            -- the local goes out of scope
   | callEv (i : Bool) (m : Meth)       -- self._event.m() of buffer i (false = stdout, true = stderr)
   | callForever                        -- self._pipe.set_forever()
   | skipUnless (c : HCond) (n : Nat)   -- if ¬c: skip the next n instructions
@@ -200,6 +204,8 @@ structure St where
   eof : Bool := false
   chClosed : Bool := false
   hasPipe : Bool := false
+  combine : Bool := false      -- Channel.combine_stderr
+  tmp : Bool := false          -- scratch local of the channel-lock holder
   lb1 : Lock := {}
   lb2 : Lock := {}
   lch : Lock := {}
@@ -269,6 +275,8 @@ def hcond (s : St) : HCond → Bool
   | .eof => s.eof
   | .chClosed => s.chClosed
   | .hasPipe => s.hasPipe
+  | .combine => s.combine
+  | .tmp => s.tmp
   | .tt => true
   | .not c => !(hcond s c)
   | .or a b => hcond s a || hcond s b
@@ -357,6 +365,9 @@ def runGlue (fuel : Nat) (s : St) (tid : Nat) (prog : List PInstr) : St × Threa
       | .setEof => runGlue fuel { s with eof := true } tid rest
       | .setChClosed => runGlue fuel { s with chClosed := true } tid rest
       | .mkPipe => runGlue fuel { s with hasPipe := true } tid rest
+      | .setCombine b => runGlue fuel { s with combine := b } tid rest
+      | .saveNe i => runGlue fuel { s with tmp := if i then s.ne2 else s.ne1 } tid rest
+      | .dropTmp => runGlue fuel { s with tmp := false } tid rest
       | .callEv i m => (s, { prog := rest, stack := [{ obj := if i then .or2 else .or1, meth := m, pc := some 0 }] })
       | .callForever => (s, { prog := rest, stack := [{ obj := .pipe, meth := .setForever, pc := some 0 }] })
       | .skipUnless cnd n => if hcond s cnd then runGlue fuel s tid rest else runGlue fuel s tid (rest.drop n)
@@ -409,6 +420,14 @@ def setEventB (i : Bool) : List PInstr :=
   [.acq (bLock i), .setEv i, .skipUnless (.or (.cl i) (.ne i)) 2, .callEv i .set, .skipUnless (.not .tt) 1,
    .callEv i .clear, .rel (bLock i)]
 
+/-- BufferedPipe.feed(non-empty data) -/
+def feedB (i : Bool) : List PInstr :=
+  [.acq (bLock i), .skipUnless (.ev i) 1, .callEv i .set, .setNe i true, .rel (bLock i)]
+
+/-- BufferedPipe.empty() -/
+def emptyB (i : Bool) : List PInstr :=
+  [.acq (bLock i), .setNe i false, .skipUnless (.and (.ev i) (.not (.cl i))) 1, .callEv i .clear, .rel (bLock i)]
+
 inductive Op where
   | feed (i : Bool)        -- BufferedPipe.feed(non-empty data)
   | feedEmpty (i : Bool)   -- BufferedPipe.feed(b"")
@@ -417,6 +436,9 @@ inductive Op where
   | eof                    -- Channel._handle_eof
   | close                  -- Channel._unlink / _handle_close → _set_closed
   | fileno                 -- Channel.fileno()
+  | combineOn              -- Channel.set_combine_stderr(True)
+  | combineOff             -- Channel.set_combine_stderr(False)
+  | feedErr                -- Channel._feed_extended (type 1, non-empty): stdout buffer if combining, else stderr buffer
   deriving DecidableEq, Repr
 
 /-- `feedGuard = true`: feed() raises the event only for non-empty data (buffered_pipe.py after
@@ -439,6 +461,15 @@ def prog (feedGuard : Bool) : Op → List PInstr
       [.skipUnless .hasPipe 1, .callForever, .rel .ch]
   | .fileno =>
     [.acq .ch, .skipUnless (.not .hasPipe) 15, .mkPipe] ++ setEventB false ++ setEventB true ++ [.rel .ch]
+  | .combineOn =>
+    -- old = combine; combine = True; if not old: data = stderr.empty(); if data: self._feed(data)   (all under the lock)
+    [.acq .ch, .skipUnless (.not .combine) 14, .setCombine true,
+     -- data = self.in_stderr_buffer.empty()   (`data` is what the buffer holds once its lock has been obtained)
+     .acq .b2, .saveNe true, .setNe true false, .skipUnless (.and (.ev true) (.not (.cl true))) 1, .callEv true .clear,
+     .rel .b2, .skipUnless .tmp 5] ++ feedB false ++ [.skipUnless (.not .tt) 1, .setCombine true, .dropTmp, .rel .ch]
+  | .combineOff => [.acq .ch, .setCombine false, .rel .ch]
+  | .feedErr =>
+    [.acq .ch, .skipUnless .combine 6] ++ feedB false ++ [.skipUnless (.not .tt) 5] ++ feedB true ++ [.rel .ch]
 
 /-- scheduler alphabet -/
 inductive Act where
